@@ -40,6 +40,9 @@ type c13Case struct {
 	// Companion: another request (its own, live context) for another row of the table is already
 	// stuck in the same state when the request under test is issued
 	Companion bool `json:"companion,omitempty"`
+	// AllOwn (callinbatch): EVERY call of the batch carries the context that ends (the batch's own context
+	// stays alive): nothing else keeps the batch waiting, whatever state the lookups are in
+	AllOwn bool `json:"all_own,omitempty"`
 }
 
 func c13Valid(c c13Case) bool {
@@ -56,8 +59,16 @@ func c13Valid(c c13Case) bool {
 		return false
 	}
 	if c.Which == "callinbatch" && !(c.State == "held" || c.State == "silent") {
-		// while a lookup is pending the other calls legitimately keep the batch waiting
-		return false
+		// while a lookup is pending the other calls legitimately keep the batch waiting -
+		// unless every call of the batch carries the context that ends
+		switch c.State {
+		case "zk", "meta", "probe", "dialrefused":
+			if !c.AllOwn {
+				return false
+			}
+		default:
+			return false
+		}
 	}
 	if c.State == "busy" && (c.Entry == "scan" || c.Queue < 2) {
 		return false
@@ -340,7 +351,7 @@ func c13RunInBubble(c c13Case) (out Outcome) {
 			switch {
 			case c.Which == "batch" && c.Shared:
 				ctx = endCtx
-			case c.Which == "callinbatch" && affected[i]:
+			case c.Which == "callinbatch" && (affected[i] || c.AllOwn):
 				ctx = endCtx
 			}
 			key := c.Key
@@ -478,7 +489,7 @@ func c13RunInBubble(c c13Case) (out Outcome) {
 		time.Sleep(100 * time.Millisecond)
 		synctest.Wait()
 	}
-	if !r.returned && c.Which == "callinbatch" && !c.Split {
+	if !r.returned && c.Which == "callinbatch" && !c.Split && !c.AllOwn {
 		// the other calls share the unanswered multi-request with the affected one: they
 		// are done once the read timeout (2s) has failed the connection and they were retried
 		time.Sleep(4 * time.Second)
@@ -490,6 +501,7 @@ func c13RunInBubble(c c13Case) (out Outcome) {
 	if !returned {
 		stuck = firstGohbaseStack(gohbaseGoroutines(), "SendBatch", "SendRPC", "Next")
 	}
+	execsAtEnd, _, _ := cl.Snapshot()
 	teardown()
 	<-done
 
@@ -510,10 +522,18 @@ func c13RunInBubble(c c13Case) (out Outcome) {
 			return viol("cancel-batch-ok", "batch returned ok=true although a context ended while calls were unfinished (%s)", sigState)
 		}
 		for i, res := range r.results {
-			mustFail := c.Which == "batch" || affected[i]
-			if c.Which == "callinbatch" && !affected[i] {
+			// (AllOwn in a lookup state: no call of the batch can have finished; with a silent server or a
+			// held response only the affected calls are unfinished, the others were answered ...
+			// (... unless they travel in the same multi-request: not split over two servers)
+			allPending := c.AllOwn && (c.State != "silent" && c.State != "held" || !c.Split)
+			mustFail := c.Which == "batch" || affected[i] || allPending
+			if c.Which == "callinbatch" && !affected[i] && !allPending {
+				if c.AllOwn && (res.Error == nil || errors.Is(res.Error, context.Canceled) || errors.Is(res.Error, context.DeadlineExceeded)) {
+					// (its own context ended as well: answered in time or given up before it was sent)
+					continue
+				}
 				if res.Error != nil {
-					return viol("cancel-collateral", "call %d (not cancelled, answered by the server) ended with %v", i, res.Error)
+					return viol("cancel-collateral", "call %d (not cancelled, answered by the server) ended with %v; server log: %q", i, res.Error, execHistory(execsAtEnd))
 				}
 				continue
 			}
@@ -606,6 +626,7 @@ func c13Gen(t *rapid.T) c13Case {
 	}
 	c.Mode = rapid.SampledFrom([]string{"cancel", "deadline"}).Draw(t, "mode")
 	c.Queue = 2
+	c.AllOwn = c.Which == "callinbatch" && rapid.Bool().Draw(t, "allown")
 	var states []string
 	for _, st := range c13States {
 		x := c
@@ -629,7 +650,7 @@ func TestC13_Cancellation(t *testing.T) {
 		"rapid over the enumerated cross product (entry point in {Get, Put, SendBatch, Scanner.Next}) x (wait state in "+
 			"{ZooKeeper lookup held, meta scan held, region probe held, dial refused repeatedly, dial refused while another request's dial to another server hangs, the connection of a server with eight cached regions breaking while hbase:meta is silent, n-th retry back-off "+
 			"sleep n=1..8, busy send queue, silent server, response of one call held}) x (which context: the call's, the "+
-			"batch's, a single call's inside a batch) x (cancel, deadline), with drawn batch shapes, keys, queue/flush "+
+			"batch's, a single call's inside a batch, every call's inside a batch whose own context stays alive) x (cancel, deadline), with drawn batch shapes, keys, queue/flush "+
 			"settings and retryable classes; optionally another request with a live context is already stuck in the same state. Virtual time: the state is confirmed through the simulated cluster before the "+
 			"context ends; the API call must have returned at the next quiescence point (<= 100 virtual ms) with an "+
 			"error wrapping the context error; a batch returns ok=false with the unfinished calls failed. Non-trivial = "+
